@@ -21,11 +21,17 @@ class Scope:
         self.defs = {}       # name -> tag (anything the caller supplies)
         self.children = []
 
-    def lookup(self, name):
+    def lookup(self, name, depth=0):
         s = self
         while s is not None:
             if name in s.defs:
-                return s.defs[name]
+                v = s.defs[name]
+                if isinstance(v, tuple) and v and v[0] == "argname":
+                    # macro parameter bound to a name: that name means what it means where the macro is applied
+                    if depth > 16:
+                        return UNDEFINED
+                    return v[1].lookup(v[2], depth + 1)
+                return v
             s = s.parent
         return UNDEFINED
 
@@ -124,7 +130,10 @@ def evaluate(items, val, start_addr, advance, opwidth=2):
                 scope.children.append(s)
                 if kind == "macro":
                     for p, _a, hole in extra:
-                        s.defs[p] = val(hole)
+                        if isinstance(hole, (tuple, list)) and hole[0] == "name":
+                            s.defs[p] = ("argname", scope, hole[1])
+                        else:
+                            s.defs[p] = val(hole)
                 walk(body, s, in_loop)
                 if kind == "named":
                     for n, t in list(s.defs.items()):
